@@ -297,7 +297,8 @@ func specialMouse(c *specialCtx) {
 			im2, _ := newImpl(0, false, 10, 5)
 			var seq []byte
 			for k, n := 0, 2+pr.intn(6); k < n; k++ {
-				seq = append(seq, []byte(fmt.Sprintf("\x1b[?%s%s", pick(pr, []string{"9", "1000", "1002", "1003", "1005", "1006", "1015", "1006", "1005", "1000;1006", "1002;1005", "9;1015"}), pick(pr, []string{"h", "l", "h"})))...)
+				seq = append(seq, []byte(fmt.Sprintf("\x1b[?%s%s", pick(pr, []string{"9", "1000", "1002", "1003", "1005", "1006", "1015", "1006", "1005", "1000;1006", "1002;1005", "9;1015",
+					"1003;1007;1006", "1007;1002", "2026;1005;1000", "1000;;1006", "1048;1006", "1006;1001;1003"}), pick(pr, []string{"h", "l", "h"})))...)
 			}
 			if path%2 == 0 {
 				seq = append(seq, []byte(modes[cb.mode]+encs[cb.enc])...)
@@ -404,6 +405,13 @@ func specialKeys(c *specialCtx) {
 		ts := states[i]
 		im, _ := newImpl(0, false, 10, 5)
 		setup := fmt.Sprintf("\x1b[=%du\x1b[>4;%dm", ts.flags, ts.mok)
+		if i%3 == 1 {
+			// the same state on the alternate buffer, while the main buffer holds other flags
+			setup = fmt.Sprintf("\x1b[=%du\x1b[?1049h\x1b[=%du\x1b[>4;%dm", (ts.flags*7+5)%32, ts.flags, ts.mok)
+		} else if i%3 == 2 {
+			// … and on the main buffer after a visit to the alternate one that set other flags
+			setup = fmt.Sprintf("\x1b[=%du\x1b[?1049h\x1b[=%du\x1b[>%du\x1b[?1049l\x1b[>4;%dm", ts.flags, (ts.flags*11+3)%32, (ts.flags+9)%32, ts.mok)
+		}
 		if ts.app {
 			setup += "\x1b[?1h"
 		}
